@@ -70,6 +70,10 @@ def Store.finB (s : Store) (cdi : List Nat) (i : Nat) : Store :=
   { s with di := cdi, items := upd s.items i none }
 /-- `backupQueueSize`: `Set si` -/
 def Store.setSi (s : Store) (v : Nat) : Store := { s with si := some v }
+/-- first fallback of `itemDispatchingFinish`: `Batch(delete <i>)` -/
+def Store.delB (s : Store) (i : Nat) : Store := { s with items := upd s.items i none }
+/-- second fallback of `itemDispatchingFinish`: `Batch(set di := cdi)` -/
+def Store.setDi (s : Store) (cdi : List Nat) : Store := { s with di := cdi }
 /-- recovery (repaired): `Batch(set wi := w+1, set <w> := r, delete <i>, set di := rest)` -/
 def Store.moveB (s : Store) (w : Nat) (r : Req) (i : Nat) (rest : List Nat) : Store :=
   { s with wi := some (w + 1), items := upd (upd s.items w (some r)) i none, di := rest }
@@ -90,6 +94,13 @@ deriving DecidableEq, Repr
 inductive Res
   | none | offerOk | offerFull | readItem (i : Nat) (r : Req) | readStopped | readEmpty
   | doneOk | doneUnknown | shutOk
+  | err          -- the operation returned a storage error (only in the machine with storage errors, `Model/C01Err.lean`)
+deriving DecidableEq, Repr
+
+/-- who called `itemDispatchingFinish`: `getNextItem` (then `Read`'s loop continues) or `onDone` -/
+inductive FinK
+  | read
+  | done
 deriving DecidableEq, Repr
 
 inductive Pc
@@ -103,6 +114,11 @@ inductive Pc
   | init3 (ds : List Nat)                           -- next call: retrieve batch over ds
   | moving (todo : List (Nat × Option Req))         -- next call: move batch for the head of todo
   | movingBackup (todo : List (Nat × Option Req))   -- next call: `Set si` inside writeInternal, then continue
+  -- the three batches of `itemDispatchingFinish` as pending calls; the in-memory list has the index removed already.
+  -- Entered only after a storage error (`Model/C01Err.lean`); the error-free machine never reaches them.
+  | fin1 (i : Nat) (k : FinK)                       -- next call: `Batch(set di, delete <i>)`
+  | fin2 (i : Nat) (k : FinK)                       -- next call: `Batch(delete <i>)`
+  | fin3 (i : Nat) (k : FinK)                       -- next call: `Batch(set di)`
 
 inductive Phase
   | dead
@@ -216,7 +232,15 @@ def doMove (c : Cfg) (m : Mem) (todo : List (Nat × Option Req)) : Cfg :=
              st := c.st.moveB m.wi r i (rest.map Prod.fst),
              ph := .live m' (if backupDue c.k (m.wi + 1) 5 then .movingBackup rest else afterMove rest) }
 
+/-- where control goes when `itemDispatchingFinish` returns -/
+def finCont (k : Conf) (m : Mem) : FinK → Pc
+  | .read => .readLoop
+  | .done => if backupDue k m.ri 0 then .backup else .idle
+
 def doTick (c : Cfg) (m : Mem) : Pc → Cfg
+  | .fin1 i k => { c with calls := c.calls + 1, st := c.st.finB m.cdi i, ph := .live m (finCont c.k m k) }
+  | .fin2 i k => { c with calls := c.calls + 1, st := c.st.delB i, ph := .live m (.fin3 i k) }
+  | .fin3 _ k => { c with calls := c.calls + 1, st := c.st.setDi m.cdi, ph := .live m (finCont c.k m k) }
   | .idle => c
   | .backup => { c with calls := c.calls + 1, st := c.st.setSi m.size, ph := .live m .idle }
   | .readRet i r =>
